@@ -20,7 +20,7 @@ RULE = ("square sparse systems of order 1..60 (quick: 1..40): SPD (Gram+shift), 
         "equally spaced / two distinct / mixed-sign eigenvalues; tridiagonal symmetric, Laplacian, nonsymmetric; dense upper / lower triangular; dense with equal or "
         "alternating entries; arrow; decoupled blocks; explicitly stored +0.0 / -0.0 entries; cyclic permutation, anti-diagonal and strictly upper = EMPTY main diagonal; "
         "the zero matrix; a single stored entry; an empty column) x right-hand side (A*xt, ones, e_first, e_last, e_mid, alternating +-1, unit norm (0.6,0.8), zero, -0.0) "
-        "x guess (zero, -0.0, ones, far = 2^20, exact, exact except the first / last / middle component, 2*xt, -xt) x scale (A*2^sa, b*2^sb, (sa,sb) in "
+        "x guess (zero, -0.0, ones, far = 2^20, exact, exact except the first / last / middle component, 2*xt, -xt; cheap-zero = non-zero guesses with entries summing to exactly 0 or a zero first / last component) x scale (A*2^sa, b*2^sb, (sa,sb) in "
         "{(0,0),(+-60,0),(0,+-200),(60,-200),(-60,200),(+-120,+-120)}) x tol (powers of ten, 2^-20, 2^-33, 3.7e-5, 6.1e-11); localized = residual of the start in one "
         "component; eigen-rhs = right-hand side a left / right eigenvector of a triangular matrix (the `== 0` exits of QMR / BiCGSTAB); budget0-guess = budget 0 on every guess class incl. NaN, +-inf, 1e300, subnormal (x compared bit for bit); ladder = every budget 0..2n+3 on one "
         "system; scaled-* = the random families with A*2^(+-60,120,200) and b*2^(0,+-100,+-sa); huge-budget = budget 10^6; history = executor kind it.seq: an "
@@ -180,6 +180,16 @@ def gen_special(g, tier):
                 s = struct_system(name, n, "Axt", gk, 0, 0, "sorted", g)
                 for sv in SOLVERS:
                     out.extend(mk_cases(sv, s, 3 * n + 10, 1e-6, "localized", tie=(not quick), want_trace=True))
+    # (2b) cheap-zero guesses: NON-zero starts whose entries sum to exactly 0 or whose first / last component is 0 -- what a
+    #      shortcut "the guess is zero, skip A*x0" keyed on a cheap functional takes for zero (own rng stream)
+    gc = g.fork("c08-cheapzero-guess")
+    cz_names = ["tridiag-41", "tridiag-nonsym", "dense-alt", "diag-ap", "upper-ones"]
+    for name in (gc.shuffle(cz_names)[:2] if quick else cz_names):
+        for gk in GUESS_CHEAPZERO:
+            for n in ([gc.choice([2, 4, 5, 6])] if quick else [2, 3, 4, 6]):
+                s = struct_system(name, n, "Axt", gk, 0, 0, "sorted", gc)
+                for sv in SOLVERS:
+                    out.extend(mk_cases(sv, s, 3 * n + 10, 1e-6, "cheapzero-guess", tie=(not quick), want_trace=True))
     # (3) budget 0 on every guess class (the non-finite ones included: "x is left untouched" is a statement about bits)
     rhs_all = ["Axt", "zero", "negzero", "ones"]
     d4 = g.below(4)
